@@ -62,6 +62,7 @@ class Ctx:
         self.pristine: List[Tuple[Any, Tensor]] = []
         self._dup = None
         self.typed: List[Tuple[str, Any, Any, Any]] = []
+        self.views: List[Tuple[str, Tensor, Any]] = []
         self.grid = Grid(shape=self.shape, spacing=tuple([1.0, 1.5, 0.5][:D]))
         self.aliased_args = False
 
@@ -121,6 +122,7 @@ class Ctx:
             base = V.clone()
             view = base
         self._track(f"{name}#{len(self.tracked)}:{form}", base)
+        self._track_view(f"{name}#{len(self.tracked) - 1}:{form}", view)
         return view
 
     @staticmethod
@@ -136,6 +138,27 @@ class Ctx:
             if [self._grid_state(x) for x in grids] != states:
                 return nm, "grid values changed"
         return None
+
+    def _track_view(self, name: str, view: Tensor):
+        """The tensor *object* handed to the function: an in-place reshape of it (unsqueeze_, squeeze_, transpose_, t_)
+        changes the caller's variable without touching the storage."""
+        with torch._C.DisableTorchFunctionSubclass():
+            self.views.append((name, view, (tuple(view.shape), tuple(view.stride()), view.storage_offset(), view.dtype)))
+
+    def view_changed(self):
+        for nm, v, meta in self.views:
+            with torch._C.DisableTorchFunctionSubclass():
+                cur = (tuple(v.shape), tuple(v.stride()), v.storage_offset(), v.dtype)
+            if cur != meta:
+                return nm, meta[0], cur[0]
+        return None
+
+    def sub(self, t: Tensor, *idx) -> Tensor:
+        """A lower-rank form of an argument (an unbatched transform, labels without channel axis ...): the indexed view
+        is what the function gets, and it is tracked as an object of its own."""
+        v = t[idx if len(idx) != 1 else idx[0]]
+        self._track_view(f"sub#{len(self.views)}:view", v)
+        return v
 
     def _track(self, name: str, base: Tensor):
         self.tracked.append((name, base))
@@ -1008,6 +1031,13 @@ class FrameWorld:
                 viol.append(Violation("C15", "argument-mutated", f"argument-mutated/{name}/{role}:{form}" + ("" if at == "after" else "@" + at),
                                       {"arg": nm, "what": "values" if same_meta else "meta", "at": at, "aliased_args": c.aliased_args}))
                 break
+        if not viol and c.views:
+            self.c["checks"]["frame:argument_object"] += len(c.views)
+            bad = c.view_changed()
+            if bad is not None:
+                role = bad[0].split("#")[0]
+                viol.append(Violation("C15", "argument-mutated", f"argument-mutated/{name}/{role}:reshaped" + ("" if at == "after" else "@" + at),
+                                      {"arg": bad[0], "what": "shape of the argument object", "before": list(bad[1]), "after": list(bad[2]), "at": at}))
         if not viol and c.typed:
             self.c["checks"]["frame:typed_argument_grids"] += len(c.typed)
             bad = c.typed_args_changed()
